@@ -8,7 +8,8 @@ Raw constant-pool entries (`PoolEntry`), `PoolRead::read` (slot 0 and the slot a
 lazy resolution `PoolEntry::as_*` / `PoolRead::get_*` including the `BootstrapMethods` indirection of `Dynamic` /
 `InvokeDynamic`, and the name checks done by the `try_from` conversions (`tree/mod.rs` `names`).
 
-Descriptors and signatures are *not* validated by the reader (`check_valid` is `Ok(())` for them), names are.
+Descriptors and signatures are *not* validated by the reader (`check_valid` is `Ok(())` for them), names are
+(a class name starting with `[` must be an array field descriptor).
 `get_loadable` recurses through bootstrap arguments without a bound: the model takes fuel `pool.length + 1`
 (more than any acyclic chain needs); running out of fuel means the Rust recursion does not terminate
 (`crash .recursion`).
@@ -100,7 +101,23 @@ def segmentsOk : JStr → Bool → Bool
     else c != 46 && c != 59 && c != 91 && segmentsOk r true
 
 def validObjClassName (s : JStr) : Bool := s.head? != some 91 && segmentsOk s false
-def validClassName (s : JStr) : Bool := s.head? == some 91 || segmentsOk s false
+
+/-- `is_valid_arr_class_name`: the string parses as an array field descriptor (`FieldDescriptorSlice::parse`):
+1 to 255 `[`, then a base type letter, or `L`, an object class name, `;` — and nothing after it -/
+def validArrayDesc (s : JStr) : Bool :=
+  let dims := (s.takeWhile (· == 91)).length
+  dims ≤ 255 &&
+    match s.dropWhile (· == 91) with
+    | [] => false
+    | c :: r =>
+      if c == 66 || c == 67 || c == 68 || c == 70 || c == 73 || c == 74 || c == 83 || c == 90 then r.isEmpty
+      else if c == 76 then
+        match r.dropWhile (· != 59) with
+        | [] => false
+        | _ :: after => after.isEmpty && validObjClassName (r.takeWhile (· != 59))
+      else false
+
+def validClassName (s : JStr) : Bool := if s.head? == some 91 then validArrayDesc s else segmentsOk s false
 
 def INIT : JStr := [60, 105, 110, 105, 116, 62]
 def CLINIT : JStr := [60, 99, 108, 105, 110, 105, 116, 62]
